@@ -28,6 +28,15 @@ for _n in ('Numerics', 'Inference', 'Spectrum_mod', 'Integration', 'Misc'):
 np.seterr(all='ignore')
 
 REPO = os.environ.get('DADI_REPO', '/repo')
+_OV = os.environ.get('DADI_OVERLAY')
+if _OV and not os.path.realpath(dadi.__file__).startswith(os.path.realpath(_OV) + os.sep):
+    # dadi is also installed in /venv (pointing at /repo): never silently run that one
+    print(json.dumps({'crash': 'dadi was imported from %s, not from the rebuilt overlay %s' % (dadi.__file__, _OV)}))
+    sys.exit(0)
+try:
+    STAMP = open(os.path.join(_OV, '.stamp')).read().strip() if _OV else None
+except OSError:
+    STAMP = None
 
 # ------------------------------------------------------------------------------------------------------------------
 # canonical forms
@@ -818,7 +827,7 @@ def mode_batch(p):
                     results[idx] = json.loads(b''.join(chunks))
                 else:
                     results[idx] = {'crash': 'child process died without output (wait status %d)' % status}
-    return {'results': results}
+    return {'results': results, 'stamp': STAMP, 'dadi_file': dadi.__file__}
 
 
 def main():
@@ -827,6 +836,7 @@ def main():
         res = mode_batch(p)
     else:
         res = dispatch(p)
+        res['stamp'] = STAMP
     print(json.dumps(res))
 
 main()
